@@ -472,6 +472,9 @@ func ValidUTF8(p []byte) bool {
 
 // ValidTopicName returns whether the bytes is a valid non-shared topic filter.[MQTT-4.7.1-1].
 func ValidTopicName(mustUTF8 bool, p []byte) bool {
+	if len(p) == 0 { // [MQTT-4.7.3-1]
+		return false
+	}
 	for len(p) > 0 {
 		ru, size := utf8.DecodeRune(p)
 		// an invalid encoding decodes as RuneError with size 1; U+FFFD itself (size 3) is a legal character
